@@ -313,24 +313,163 @@ def oracle_accept(case, evs):
     return None
 
 
+SEND_KINDS = {1: "write", 2: "write_vectored", 3: "write_zerocopy", 4: "write_zerocopy_vectored",
+              6: "write_with_ancillary", 7: "write_vectored_with_ancillary"}
+BULK_KINDS = {1: "write", 2: "write_vectored", 3: "write_all", 4: "write_vectored_all",
+              5: "write_zerocopy", 6: "write_zerocopy_vectored"}
+RECV_KINDS = {1: "read", 2: "read_vectored", 3: "read_managed", 4: "read_multi", 6: "read_with_ancillary",
+              7: "read_managed_with_ancillary", 8: "read_multi_with_ancillary"}
+DRV = {0: "io_uring", 1: "polling"}
+
+
+def describe_stall(case, evs):
+    """the harness' watchdog fired: say what never completed (tag 13 = pending operation,
+    tag 19 = bytes accepted / received so far)"""
+    pend = [e for e in evs if e[0] == 13]
+    if not pend:
+        return None
+    prog = {e[1]: (e[2], e[3]) for e in evs if e[0] == 19}
+    mode = case[0]
+    drv = DRV.get(case[1], "?")
+    parts = []
+    for _, dirn, idx, what, a, b, kind in pend:
+        sent, rcvd = prog.get(dirn, (None, None))
+        so_far = "" if sent is None else " (direction %d: %d bytes accepted, %d received so far)" % (dirn, sent, rcvd)
+        if what == 1:
+            names = BULK_KINDS if mode == 4 else SEND_KINDS
+            peer = "with the peer reading" if (rcvd or 0) > 0 or mode == 4 else "with the peer not yet reading"
+            parts.append("send of %d bytes stalled %s: %s op %d at stream position %d never completed%s"
+                         % (a, peer, names.get(kind, "send kind %d" % kind), idx, b, so_far))
+        elif what == 2:
+            parts.append("receive stalled: %s op %d (capacity %d) at stream position %d never completed%s"
+                         % (RECV_KINDS.get(kind, "receive kind %d" % kind), idx, a, b, so_far))
+        elif what == 3:
+            parts.append("shutdown of direction %d never completed" % dirn)
+        elif what == 4:
+            parts.append("%s never yielded a connection (%d of %d accepted)"
+                         % ("incoming()" if kind == 2 else "accept()", b, a))
+        elif what == 5:
+            parts.append("client %d never finished (connect / acknowledgement)" % idx)
+        elif what == 6:
+            parts.append("send of datagram %d (%d bytes, send kind %d) never completed" % (idx, a, kind))
+        elif what == 7:
+            parts.append("receive of datagram %d (%d bytes sent, receive kind %d, capacity %d) never completed"
+                         % (idx, b, kind, a))
+        elif what == 8:
+            parts.append("multishot stream of receive op %d (%s) never yielded nor ended at stream position %d%s"
+                         % (idx, RECV_KINDS.get(kind, "kind %d" % kind), b, so_far))
+        elif what == 9:
+            parts.append("connection setup never completed")
+        else:
+            parts.append("the program did not finish (no operation pending: a task was lost)")
+    return "no progress under the watchdog on the %s driver: %s" % (drv, "; ".join(parts[:4]))
+
+
+def oracle_bulk(case, evs):
+    drv, tr, split, sbuf, rbuf, seed, who, delay, pace, rcap, n = case[1:12]
+    ops = [tuple(case[12 + 3 * i: 15 + 3 * i]) for i in range(n)]
+    sent = rpos = eofs = 0
+    done = {}
+    aborted = set()
+    shut = False
+    summary = None
+    for e in evs:
+        t = e[0]
+        if t == 1:
+            _, _, idx, offered, acc, bufok, kind = e
+            if idx >= n or ops[idx][0] != kind:
+                return "send event %r does not belong to the program" % (e,)
+            k, total, chunk = ops[idx]
+            d0 = done.get(idx, 0)
+            want = total if k in (3, 4) else min(chunk, total - d0)
+            if offered != want:
+                return "%s op %d offered %d bytes, the program says %d" % (BULK_KINDS[k], idx, offered, want)
+            if acc > offered or acc == 0 or (k in (3, 4) and acc != offered):
+                return "%s op %d: %d bytes offered, result %d" % (BULK_KINDS[k], idx, offered, acc)
+            if bufok != 1:
+                return "%s op %d returned a different buffer than it was given" % (BULK_KINDS[k], idx)
+            if shut:
+                return "a send was accepted after shutdown"
+            done[idx] = d0 + acc
+            sent += acc
+        elif t == 7:
+            if not (e[3] == 95 and e[6] in (5, 6) and tr == 1 and drv == 0):
+                return "%s op %d failed with errno %d" % (BULK_KINDS.get(e[6], "send"), e[2], e[3])
+            aborted.add(e[2])
+        elif t == 2:
+            if e[2] != 0:
+                return "shutdown failed with errno %d" % e[2]
+            shut = True
+        elif t == 6:
+            return "read %d failed with errno %d" % (e[2], e[3])
+        elif t == 3:
+            _, _, idx, cnt, pos, ok, _ = e
+            if pos != rpos:
+                return "read %d delivered stream position %d, expected %d (bytes lost, duplicated or reordered)" % (idx, pos, rpos)
+            if cnt > rcap:
+                return "read %d returned %d bytes into a capacity of %d" % (idx, cnt, rcap)
+            if rpos + cnt > sent:
+                return "read %d obtained bytes beyond what was sent" % idx
+            if ok != 1:
+                return "read %d (%d bytes at position %d): content differs from the sent bytes" % (idx, cnt, pos)
+            if cnt == 0:
+                if not shut or rpos != sent:
+                    return "end-of-stream at position %d while %d bytes were sent" % (rpos, sent)
+                eofs += 1
+            elif eofs:
+                return "data after end-of-stream"
+            rpos += cnt
+        elif t == 9:
+            summary = e
+    for i, (k, total, chunk) in enumerate(ops):
+        if i not in aborted and done.get(i, 0) != total:
+            return "%s op %d delivered %d of %d bytes" % (BULK_KINDS[k], i, done.get(i, 0), total)
+    if summary is None:
+        return "the transfer did not finish (no summary)"
+    if summary[2] != sent or summary[3] != rpos or rpos != sent:
+        return "%d bytes sent, %d received" % (sent, rpos)
+    if summary[4] != 1:
+        return "the harness' byte-for-byte comparison of received and sent streams failed"
+    if eofs < 2:
+        return "the reader never saw a (sticky) end-of-stream after shutdown"
+    return None
+
+
 def oracle(case, out):
     if out[:1] == [99999]:
         return None
+    what = {1: "stream program", 2: "datagram program", 3: "accept program", 4: "bulk transfer"}.get(case[0], "program")
     if out[:1] == [2] and len(out) == 2:
-        return "%s (code %d) in a socket program" % ("no progress under the watchdog (hang)" if out[1] == 8
-                                                      else "panic/abort", out[1])
+        if out[1] == 8:
+            return ("the harness process made no progress on this %s and was killed by the runner's timeout "
+                    "(beyond the harness' own watchdog: the runtime itself did not return)" % what)
+        if out[1] == 4:
+            return "the harness process died (abort / signal) while running this %s" % what
+        return "panic (code %d) while running this %s" % (out[1], what)
+    if not out or out[0] != 0 or len(out) < 2:
+        return "the harness printed no transcript for this %s (output starts with %r)" % (what, out[:4])
+    n = out[1]
+    if len(out) != 2 + 7 * n:
+        return ("truncated transcript of this %s: %d events announced, %d integers present (%d complete events); "
+                "last complete event %r" % (what, n, len(out) - 2, (len(out) - 2) // 7,
+                                            out[2 + 7 * ((len(out) - 2) // 7 - 1): 2 + 7 * ((len(out) - 2) // 7)]))
+    evs = events(out)
     try:
-        if out[0] != 0:
-            return "malformed output"
-        evs = events(out)
+        stall = describe_stall(case, evs)
+        if stall:
+            return stall
         if case[0] == 1:
             return oracle_stream(case, evs)
         if case[0] == 2:
             return oracle_dgram(case, evs)
         if case[0] == 3:
             return oracle_accept(case, evs)
-    except (IndexError, KeyError, TypeError, ValueError):
-        return "malformed transcript"
+        if case[0] == 4:
+            return oracle_bulk(case, evs)
+    except (IndexError, KeyError, TypeError, ValueError) as ex:
+        tags = sorted({e[0] for e in evs})
+        return ("transcript of this %s cannot be interpreted (%s: %s); %d events with tags %r, last event %r"
+                % (what, type(ex).__name__, ex, len(evs), tags, evs[-1] if evs else None))
     return "unknown mode"
 
 
@@ -344,7 +483,10 @@ class C14(diffcheck.DiffProp):
              "SubmitMultiStream re-submission loop, Incoming, the zero-copy two-phase result, vectored ops, split "
              "halves): for ALL operation sequences, OS chunkings and CQE schedules the readers observe exactly the "
              "accepted bytes in order then end-of-stream, datagrams are cut to the capacity with the flag iff cut, "
-             "every connection CQE becomes exactly one socket, an early multishot drop loses only unobserved chunks. "
+             "every connection CQE becomes exactly one socket, an early multishot drop loses only unobserved chunks; "
+             "readiness rule of the polling driver: a send blocked on a full send buffer resumes on WRITABLE (and a "
+             "receive blocked on an empty socket on READABLE) and a writer under back-pressure delivers everything "
+             "although the peer never sends a byte. "
              "Tied to the code by a transcript differential: loopback TCP/Unix-stream/UDP/Unix-datagram peers on a real "
              "compio runtime (io_uring and polling drivers) print what was offered/accepted/received; the extracted "
              "reference replays the OBSERVED chunk sizes through the same Gallina functions the theorems are about, "
@@ -366,11 +508,14 @@ class C14(diffcheck.DiffProp):
     counts = {"quick": 400, "thorough": 9000}
     thorough_release = False
     uses_consts = False
-    rule = ("cases = corpus + random programs: 62% stream pairs (TCP/Unix, 4 concurrent tasks, write / write_vectored / "
+    rule = ("cases = corpus + random programs: 7% bulk transfers under back-pressure (1-6 MiB through write / "
+            "write_vectored / write_all / write_vectored_all / zero-copy (+vectored), direct / borrowed / owned halves, "
+            "TCP and Unix stream, socket buffers default or 8-256 KiB, the peer only reads (late, paced) and never "
+            "sends; 60% polling driver; a 45 s watchdog reports what never completed), 58% stream pairs (TCP/Unix, 4 concurrent tasks, write / write_vectored / "
             "zero-copy (+vectored) / owned & borrowed halves, read / read_vectored / read_managed / read_multi with "
             "len != cap buffers, pacing, socket buffers 2-16 KiB, writes up to 60 kB, pool buffers 64-8192 x 1-8), "
-            "26% datagram programs (UDP via compio-net, Unix/UDP datagram via driver ops; 9 single-shot receive kinds + "
-            "3 multishot kinds, capacities below/above the datagram, up to 3 senders), 12% accept programs (1-20 "
+            "24% datagram programs (UDP via compio-net, Unix/UDP datagram via driver ops; 9 single-shot receive kinds + "
+            "3 multishot kinds, capacities below/above the datagram, up to 3 senders), 11% accept programs (1-20 "
             "concurrent connects, accept / incoming / incoming dropped early); both drivers; non-trivial = some "
             "bytes / datagram / connection was delivered; distinct = distinct programs")
     trusted_base = [
@@ -386,6 +531,9 @@ class C14(diffcheck.DiffProp):
         "one reader and one writer per direction (the property text's tasks); a multishot stream polled after its end "
         "is outside the model",
         "the log order (sends at their start, receives at completion) is a linearisation of the real execution",
+        "poller contract: a registered descriptor is reported WRITABLE while its send buffer has room and READABLE "
+        "while its receive queue is non-empty or the peer has shut down; bulk transcripts are replayed on byte counts "
+        "(C14_count_abstraction), the harness compares every received chunk with the pattern at its position",
     ]
 
     def model_input(self, case, out):
